@@ -564,6 +564,18 @@ func parseEMLAttachmentEmbed(contentDisposition []string, multiPart *multipart.P
 			filename = name[1 : len(name)-1]
 		}
 	}
+	// The simple split above breaks on file names that hold a ';' or a '"' and does not decode
+	// RFC 2047 encoded file names. If the header is well-formed we use the proper values.
+	if mediaType, params, err := mime.ParseMediaType(contentDisposition[0]); err == nil {
+		cdType = mediaType
+		if name, ok := params["filename"]; ok {
+			filename = name
+			wordDecoder := mime.WordDecoder{}
+			if decoded, derr := wordDecoder.DecodeHeader(name); derr == nil {
+				filename = decoded
+			}
+		}
+	}
 
 	var dataReader io.Reader
 	dataReader = multiPart
